@@ -545,20 +545,25 @@ Section QI.
     mid_Htau : forall y, In y (vH s) -> vtot s <= s_wt y * qn (rr s);
     mid_n : (Z.of_nat (vk s) < vn s)%Z }.
 
+  (* slot level: a slot is still in H, or it is no heavier than tau *)
+  Definition kept (s' : vo) (y : slot) : Prop :=
+    In y (vH s') \/ ((1 <= rr s')%nat /\ s_wt y * qn (rr s') <= vtot s').
+
   Lemma grow_loop_spec fuel : forall (s : vo) wc nc inp,
     (hh s <= fuel)%nat -> Mid s wc nc -> prov (vH s) (vM s) (vR s) (vtot s) (rr s) inp ->
     exists s' wc' nc', grow_loop fuel s wc nc = Some (s', wc', nc') /\
+      (forall y, In y (vH s) \/ In y (vM s) -> In y (vH s') \/ In y (vM s')) /\
       Mid s' wc' nc' /\ prov (vH s') (vM s') (vR s') (vtot s') (rr s') inp /\
       (forall y, In y (vH s') -> wc' <= s_wt y * qn (nc' - 1)) /\
       sumw (vH s') + wc' == sumw (vH s) + wc /\
       vtot s' = vtot s /\ vR s' = vR s /\ vk s' = vk s /\ vn s' = vn s /\ vgad s' = vgad s.
   Proof.
     induction fuel as [|f IH]; intros s wc nc inp Hf HM HP.
-    - exists s, wc, nc. cbn. split; [reflexivity|]. split; [exact HM|]. split; [exact HP|].
+    - exists s, wc, nc. cbn. split; [reflexivity|]. split; [intros y Hy; exact Hy|]. split; [exact HM|]. split; [exact HP|].
       split; [|repeat split; reflexivity].
       intros y Hy. unfold hh in Hf. destruct (vH s); [destruct Hy|simpl in Hf; lia].
     - cbn [VarOptDefs.grow_loop]. destruct (vH s) as [|root t] eqn:EH.
-      { exists s, wc, nc. split; [reflexivity|]. split; [exact HM|]. split; [rewrite EH; exact HP|].
+      { exists s, wc, nc. split; [reflexivity|]. split; [intros y Hy; rewrite EH; exact Hy|]. split; [exact HM|]. split; [rewrite EH; exact HP|].
         split; [|repeat split; rewrite ?EH; reflexivity]. rewrite EH. intros y []. }
       rewrite <- EH in HP. try rewrite <- EH.
       unfold ofN.
@@ -576,7 +581,7 @@ Section QI.
         assert (Hq : qn nc = qn (nc - 1) + 1) by (apply qn_pred; lia).
         assert (Hrw : 0 < s_wt root).
         { unfold wpos in HposH. rewrite Forall_forall in HposH. now apply HposH. }
-        destruct (IH s1 (wc + s_wt root) (S nc) inp) as (s' & wc' & nc' & E' & HM' & HP' & Hex & Hsum & Et' & ER' & Ek' & En' & Eg').
+        destruct (IH s1 (wc + s_wt root) (S nc) inp) as (s' & wc' & nc' & E' & Hsl' & HM' & HP' & Hex & Hsum & Et' & ER' & Ek' & En' & Eg').
         * lia.
         * assert (Err : rr s1 = rr s) by (unfold rr; now rewrite ER).
           constructor; rewrite ?EM, ?Err, ?Ek, ?En, ?Et, ?Emb; auto.
@@ -595,11 +600,16 @@ Section QI.
           eapply perm_trans; [exact P|].
           eapply perm_trans; [apply Permutation_app_tail, pairs_perm, Pm|].
           cbn [pairs_of map app]. apply Permutation_middle.
-        * exists s', wc', nc'. split; [exact E'|]. split; [exact HM'|]. split; [exact HP'|]. split; [exact Hex|].
+        * exists s', wc', nc'. split; [exact E'|].
+          split.
+          { intros y [Hy|Hy]; apply Hsl'.
+            - eapply Permutation_in in Hy; [|exact Pm]. destruct Hy as [<-|Hy]; [right; rewrite EM; now left|now left].
+            - right. rewrite EM. now right. }
+          split; [exact HM'|]. split; [exact HP'|]. split; [exact Hex|].
           split; [|repeat split; congruence].
           rewrite Hsum. rewrite (sumw_perm _ _ Pm). simpl. lra.
       + apply Qltb_false in Ec. fold (qn nc) in Ec.
-        exists s, wc, nc. split; [reflexivity|]. split; [exact HM|]. split; [exact HP|].
+        exists s, wc, nc. split; [reflexivity|]. split; [intros y Hy; exact Hy|]. split; [exact HM|]. split; [exact HP|].
         split; [|repeat split; reflexivity].
         destruct HM as [Hmb Hfull Hnc Hnc2 Hr Hhp HposH HposM Htot Hwc Hle HMtau Htau HHtau Hn].
         intros y Hy. rewrite EH in Hhp, Hy.
@@ -731,6 +741,7 @@ Section QI.
   Lemma grow_candidate_set_spec (s : vo) wc nc c inp :
     Mid s wc nc -> (length (vM s) < 2)%nat -> prov (vH s) (vM s) (vR s) (vtot s) (rr s) inp ->
     exists s' c', grow_candidate_set s wc nc c = Some (s', c') /\
+      (forall y, In y (vH s) \/ In y (vM s) -> kept s' y) /\
       Rest s' /\ Est s' /\ provR s' inp /\
       sumw (vH s') + vtot s' == sumw (vH s) + wc /\
       vtot s * qn (rr s') <= vtot s' * qn (rr s) /\
@@ -744,11 +755,15 @@ Section QI.
     replace (nc =? mm s + rr s)%nat with true by (symmetry; apply Nat.eqb_eq; lia).
     destruct (Nat.leb_spec 2 (mm s)); [lia|]. cbn [orb negb].
     destruct (grow_loop_spec (hh s) s wc nc inp (le_n _) HM HP)
-      as (s1 & wc1 & nc1 & E1 & HM1 & HP1 & Hex1 & Hsum1 & Et1 & ER1 & Ek1 & En1 & Eg1).
+      as (s1 & wc1 & nc1 & E1 & Hsl1 & HM1 & HP1 & Hex1 & Hsum1 & Et1 & ER1 & Ek1 & En1 & Eg1).
     rewrite E1.
     destruct (downsample_spec s1 wc1 nc1 c inp HM1 HP1 Hex1)
       as (s2 & c2 & E2 & HR2 & HE2 & HP2 & Et2 & Er2 & EH2 & Ek2 & En2 & Eg2).
-    exists s2, c2. split; [exact E2|]. split; [exact HR2|]. split; [exact HE2|]. split; [exact HP2|].
+    exists s2, c2. split; [exact E2|].
+    split.
+    { intros y Hy. apply Hsl1 in Hy. destruct Hy as [Hy|Hy]; [left; rewrite EH2; exact Hy|right].
+      split; [destruct HE2 as (Hr2 & _); exact Hr2|]. rewrite Er2, Et2. apply (mid_Mtau _ _ _ HM1). exact Hy. }
+    split; [exact HR2|]. split; [exact HE2|]. split; [exact HP2|].
     split; [rewrite EH2, Et2; exact Hsum1|].
     split; [|repeat split; congruence].
     rewrite Er2, Et2. pose proof (mid_tau _ _ _ HM1) as T. rewrite Et1 in T. unfold rr in *. rewrite ER1 in T. exact T.
@@ -802,7 +817,8 @@ Section QI.
     Rest s -> Est s -> provR s inp -> 0 < w ->
     (hh s = 0%nat \/ w <= wtat (vH s) 0) -> w * qn (rr s) < w + vtot s ->
     exists s' c', update_light s x w mark c = Some (s', c') /\ Post s s' inp x w /\
-                  vtot s * qn (rr s') <= vtot s' * qn (rr s).
+                  vtot s * qn (rr s') <= vtot s' * qn (rr s) /\
+                  (forall y, In y (vH s) \/ y = mkslot x w mark -> kept s' y).
   Proof.
     intros (HM0 & Hmb & HposH & Hk & _) (Hr & Hhr & Htot & Hhp & HHtau & Hn) (HP & _) Hw Hc1 Hc2.
     unfold VarOptDefs.update_light.
@@ -838,8 +854,9 @@ Section QI.
       eapply perm_trans; [apply perm_snoc|]. cbn [pairs_of map app] in *.
       eapply perm_trans; [apply perm_skip, P|]. apply Permutation_middle. }
     destruct (grow_candidate_set_spec s1 _ _ c _ HM1 ltac:(subst s1; simpl; lia) HP1)
-      as (s' & c' & E & HR' & HE' & HP' & Hsum & Htau & Ek & En & Eg).
-    exists s', c'. split; [exact E|]. split; [|exact Htau].
+      as (s' & c' & E & Hsl & HR' & HE' & HP' & Hsum & Htau & Ek & En & Eg).
+    exists s', c'. split; [exact E|]. split; [|split; [exact Htau|]].
+    2:{ intros y [Hy| ->]; apply Hsl; [left; exact Hy|right; now left]. }
     unfold Post. split; [exact HR'|]. split; [exact HE'|]. split; [exact HP'|].
     split; [|split; [exact Ek|split; [exact En|exact Eg]]].
     rewrite Hsum. change (vH s1) with (vH s). lra.
@@ -848,7 +865,8 @@ Section QI.
   Lemma update_heavy_general_spec (s : vo) x w mark c inp :
     Rest s -> Est s -> provR s inp -> 0 < w -> (2 <= rr s)%nat -> vtot s <= w * qn (rr s) ->
     exists s' c', update_heavy_general s x w mark c = Some (s', c') /\ Post s s' inp x w /\
-                  vtot s * qn (rr s') <= vtot s' * qn (rr s).
+                  vtot s * qn (rr s') <= vtot s' * qn (rr s) /\
+                  (forall y, In y (vH s) \/ y = mkslot x w mark -> kept s' y).
   Proof.
     intros (HM0 & Hmb & HposH & Hk & _) (Hr & Hhr & Htot & Hhp & HHtau & Hn) (HP & _) Hw Hr2 Hheavy.
     unfold VarOptDefs.update_heavy_general.
@@ -885,8 +903,10 @@ Section QI.
       unfold pairs_of. rewrite map_app. cbn [map app]. rewrite <- !app_assoc. apply Permutation_app_head.
       rewrite app_assoc. cbn. apply perm_snoc. }
     destruct (grow_candidate_set_spec s1 _ _ c _ HM1 ltac:(rewrite EM, HM0; simpl; lia) HP1)
-      as (s' & c' & E & HR' & HE' & HP' & Hsum & Htau & Ek' & En' & Eg').
-    exists s', c'. split; [exact E|]. split; [|rewrite Et, Err in Htau; exact Htau].
+      as (s' & c' & E & Hsl & HR' & HE' & HP' & Hsum & Htau & Ek' & En' & Eg').
+    exists s', c'. split; [exact E|]. split; [|split; [rewrite Et, Err in Htau; exact Htau|]].
+    2:{ intros y Hy. apply Hsl. left. eapply Permutation_in; [exact Pp|]. apply in_or_app.
+        destruct Hy as [Hy| ->]; [now left|right; now left]. }
     unfold Post. split; [exact HR'|]. split; [exact HE'|]. split; [exact HP'|].
     split; [|repeat split; congruence].
     rewrite Hsum, Et, <- (sumw_perm _ _ Pp), sumw_app. simpl. lra.
@@ -895,7 +915,8 @@ Section QI.
   Lemma update_heavy_r_eq1_spec (s : vo) x w mark c inp :
     Rest s -> Est s -> provR s inp -> 0 < w -> rr s = 1%nat -> vtot s <= w * qn (rr s) ->
     exists s' c', update_heavy_r_eq1 s x w mark c = Some (s', c') /\ Post s s' inp x w /\
-                  vtot s * qn (rr s') <= vtot s' * qn (rr s).
+                  vtot s * qn (rr s') <= vtot s' * qn (rr s) /\
+                  (forall y, In y (vH s) \/ y = mkslot x w mark -> kept s' y).
   Proof.
     intros (HM0 & Hmb & HposH & Hk & _) (Hr & Hhr & Htot & Hhp & HHtau & Hn) (HP & _) Hw Hr1 Hheavy.
     unfold VarOptDefs.update_heavy_r_eq1.
@@ -957,8 +978,12 @@ Section QI.
       eapply perm_trans; [apply Permutation_app_tail; eapply perm_trans; [apply Permutation_sym, perm_snoc|exact PH]|].
       cbn [app]. apply Permutation_middle. }
     destruct (grow_candidate_set_spec s2 _ _ c _ HM2 ltac:(rewrite EM2, EM, HM0; simpl; lia) HP2)
-      as (s' & c' & E & HR' & HE' & HP' & Hsum & Htau & Ek' & En' & Eg').
-    exists s', c'. split; [exact E|]. split; [|rewrite Et2, Et, Err2 in Htau; rewrite Hr1 in Htau; exact Htau].
+      as (s' & c' & E & Hsl & HR' & HE' & HP' & Hsum & Htau & Ek' & En' & Eg').
+    exists s', c'. split; [exact E|]. split; [|split; [rewrite Et2, Et, Err2 in Htau; rewrite Hr1 in Htau; exact Htau|]].
+    2:{ intros y Hy. apply Hsl.
+        assert (Hy1 : In y (vH s1)).
+        { eapply Permutation_in; [exact Pp|]. apply in_or_app. destruct Hy as [Hy| ->]; [now left|right; now left]. }
+        eapply Permutation_in in Hy1; [|exact Pm]. destruct Hy1 as [<-|Hy1]; [right; rewrite EM2; now left|now left]. }
     unfold Post. split; [exact HR'|]. split; [exact HE'|]. split; [exact HP'|].
     split; [|repeat split; congruence].
     rewrite Hsum, Et2, Et.
@@ -973,7 +998,8 @@ Section QI.
     (Z.of_nat (vk s) < vn s)%Z -> Permutation inp (pairs_of (vH s)) ->
     exists s' c', transition_from_warmup s c = Some (s', c') /\
       Rest s' /\ Est s' /\ provR s' inp /\ sumw (vH s') + vtot s' == sumw (vH s) /\
-      vk s' = vk s /\ vn s' = vn s /\ vgad s' = vgad s.
+      vk s' = vk s /\ vn s' = vn s /\ vgad s' = vgad s /\
+      (forall y, In y (vH s) -> kept s' y).
   Proof.
     intros HM0 Hmb HR0 Hk Hh HposH Hn P.
     unfold VarOptDefs.transition_from_warmup.
@@ -1041,13 +1067,17 @@ Section QI.
       - reflexivity.
       - intros p [<-|[]]. change (s_wt b * 1 <= s_wt b). lra. }
     destruct (grow_candidate_set_spec s3 _ _ c _ HM3 ltac:(simpl; lia) HP3)
-      as (s' & c' & E & HR' & HE' & HP' & Hsum & Htau & Ek' & En' & Eg').
+      as (s' & c' & E & Hsl & HR' & HE' & HP' & Hsum & Htau & Ek' & En' & Eg').
     exists s', c'. split; [exact E|]. split; [exact HR'|]. split; [exact HE'|]. split; [exact HP'|].
     split.
     - rewrite Hsum. change (vH s3) with (vH s2).
       rewrite (sumw_perm _ _ P0), (sumw_perm _ _ Pm1). simpl. rewrite (sumw_perm _ _ Pm2). simpl. lra.
     - change (vk s3) with (vk s2) in Ek'. change (vn s3) with (vn s2) in En'. change (vgad s3) with (vgad s2) in Eg'.
-      repeat split; congruence.
+      split; [congruence|]. split; [congruence|]. split; [congruence|].
+      intros y Hy. apply (Permutation_in y P0) in Hy. apply (Permutation_in y Pm1) in Hy. destruct Hy as [<-|Hy].
+      + right. split; [destruct HE' as (Hr' & _); exact Hr'|].
+        change (vtot s3) with (s_wt b) in Htau. change (rr s3) with 1%nat in Htau. change (qn 1) with 1 in Htau. lra.
+      + apply (Permutation_in y Pm2) in Hy. destruct Hy as [<-|Hy]; apply Hsl; [right; now left|left; exact Hy].
   Qed.
 
   (* ---------------- warm-up ---------------- *)
@@ -1063,7 +1093,8 @@ Section QI.
     vn s = (Z.of_nat (hh s) + 1)%Z -> vtot s == 0 -> Permutation inp (pairs_of (vH s)) -> 0 < w ->
     exists s' c', update_warmup_phase s x w mark c = Some (s', c') /\
       Rest s' /\ provR s' (inp ++ [(x, w)]) /\ sumw (vH s') + vtot s' == sumw (vH s) + vtot s + w /\
-      vk s' = vk s /\ vn s' = vn s /\ vgad s' = vgad s.
+      vk s' = vk s /\ vn s' = vn s /\ vgad s' = vgad s /\
+      (forall y, In y (vH s) \/ y = mkslot x w mark -> kept s' y).
   Proof.
     intros HM0 Hmb HR0 Hk Hh HposH Hn Ht P Hw.
     unfold VarOptDefs.update_warmup_phase.
@@ -1082,16 +1113,18 @@ Section QI.
     - change (vk s1) with (vk s) in Hlt.
       destruct (transition_spec s1 c (inp ++ [(x, w)]) HM0 Hmb HR0 Hk ltac:(change (vk s1) with (vk s); lia) Hpos1
                   ltac:(change (vk s1) with (vk s); change (vn s1) with (vn s); lia) P1)
-        as (s' & c' & E & HR' & HE' & HP' & Hsum & Ek & En & Eg).
+        as (s' & c' & E & HR' & HE' & HP' & Hsum & Ek & En & Eg & Hslt).
       exists s', c'. split; [exact E|]. split; [exact HR'|]. split; [exact HP'|].
-      split; [rewrite Hsum, S1; lra|]. repeat split; assumption.
+      split; [rewrite Hsum, S1; lra|]. split; [exact Ek|]. split; [exact En|]. split; [exact Eg|].
+      intros y Hy. apply Hslt. subst s1; prj. apply in_or_app. destruct Hy as [Hy| ->]; [now left|right; now left].
     - change (vk s1) with (vk s) in Hge.
       exists s1, c. split; [reflexivity|]. split.
       + unfold Rest. split; [exact HM0|]. split; [exact Hmb|]. split; [exact Hpos1|]. split; [exact Hk|].
         left. unfold Warm. split; [exact HR0|]. split; [change (vk s1) with (vk s); lia|].
         split; [change (vn s1) with (vn s); rewrite Hh1; lia|exact Ht].
       + split; [apply provR_warm; [exact HR0|exact P1]|].
-        split; [change (vtot s1) with (vtot s); rewrite S1; lra|]. repeat split.
+        split; [change (vtot s1) with (vtot s); rewrite S1; lra|]. split; [reflexivity|]. split; [reflexivity|]. split; [reflexivity|].
+        intros y Hy. left. subst s1; prj. apply in_or_app. destruct Hy as [Hy| ->]; [now left|right; now left].
   Qed.
 
   (* ---------------- update ---------------- *)
@@ -1101,7 +1134,8 @@ Section QI.
       Rest s' /\ provR s' (inp ++ [(x, w)]) /\
       sumw (vH s') + vtot s' == sumw (vH s) + vtot s + w /\
       vn s' = (vn s + 1)%Z /\ vk s' = vk s /\ vgad s' = vgad s /\
-      (Est s -> Est s' /\ vtot s * qn (rr s') <= vtot s' * qn (rr s)).
+      (Est s -> Est s' /\ vtot s * qn (rr s') <= vtot s' * qn (rr s)) /\
+      (forall y, In y (vH s) \/ y = mkslot x w mark -> kept s' y).
   Proof.
     intros HR HP Hw. unfold VarOptDefs.update_body.
     set (s1 := set_n Item Q s (vn s + 1)%Z).
@@ -1112,9 +1146,9 @@ Section QI.
       destruct HP as [_ HP2].
       destruct (update_warmup_spec s1 x w mark c inp HM0 Hmb HR0 Hk Hh HposH
                   ltac:(subst s1; unfold hh in *; prj; lia) Ht (HP2 HR0) Hw)
-        as (s' & c' & E & HR' & HP' & Hsum & Ek & En & Eg).
+        as (s' & c' & E & HR' & HP' & Hsum & Ek & En & Eg & Hslw).
       exists s', c'. split; [exact E|]. split; [exact HR'|]. split; [exact HP'|]. split; [exact Hsum|].
-      split; [exact En|]. split; [exact Ek|]. split; [exact Eg|].
+      split; [exact En|]. split; [exact Ek|]. split; [exact Eg|]. split; [|exact Hslw].
       intros (Hr & _). unfold rr in Hr. rewrite HR0 in Hr. simpl in Hr. lia.
     - assert (HR1 : Rest s1).
       { unfold Rest. split; [exact HM0|]. split; [exact Hmb|]. split; [exact HposH|]. split; [exact Hk|].
@@ -1138,14 +1172,16 @@ Section QI.
       rewrite Hvalid.
       change (vtot s1) with (vtot s).
       assert (Hfin : forall r' : option (vo * chs), (exists s' c', r' = Some (s', c') /\ Post s1 s' inp x w /\
-                                  vtot s1 * qn (rr s') <= vtot s' * qn (rr s1)) ->
+                                  vtot s1 * qn (rr s') <= vtot s' * qn (rr s1) /\
+                                  (forall y, In y (vH s1) \/ y = mkslot x w mark -> kept s' y)) ->
                 exists s' c', r' = Some (s', c') /\ Rest s' /\ provR s' (inp ++ [(x, w)]) /\
                   sumw (vH s') + vtot s' == sumw (vH s) + vtot s + w /\
                   vn s' = (vn s + 1)%Z /\ vk s' = vk s /\ vgad s' = vgad s /\
-                  (Est s -> Est s' /\ vtot s * qn (rr s') <= vtot s' * qn (rr s))).
-      { intros r' (s' & c' & E & (HR' & HE' & HP' & Hsum & Ek & En & Eg) & Htau).
+                  (Est s -> Est s' /\ vtot s * qn (rr s') <= vtot s' * qn (rr s)) /\
+                  (forall y, In y (vH s) \/ y = mkslot x w mark -> kept s' y)).
+      { intros r' (s' & c' & E & (HR' & HE' & HP' & Hsum & Ek & En & Eg) & Htau & Hsl).
         exists s', c'. split; [exact E|]. split; [exact HR'|]. split; [exact HP'|]. split; [exact Hsum|].
-        split; [exact En|]. split; [exact Ek|]. split; [exact Eg|]. intros _. split; [exact HE'|exact Htau]. }
+        split; [exact En|]. split; [exact Ek|]. split; [exact Eg|]. split; [intros _; split; [exact HE'|exact Htau]|exact Hsl]. }
       destruct (((hh s =? 0)%nat || Qle_bool w (peek_min Item ditem Q 0 s1)) &&
                 Qltb w ((w + vtot s) / qn (rr s)))%bool eqn:Ecase.
       + apply Hfin. apply andb_true_iff in Ecase. destruct Ecase as [Ec1 Ec2].
